@@ -8,7 +8,9 @@ import (
 	"database/sql"
 	"database/sql/driver"
 	"errors"
+	"fmt"
 	"io"
+	"os"
 	"strings"
 	"sync"
 	"sync/atomic"
@@ -66,6 +68,7 @@ type scriptT struct {
 }
 
 var curScript atomic.Pointer[scriptT]
+var logSQL = os.Getenv("READFUZZ_LOGSQL") != ""
 var openRows int64 // result sets handed out and not yet closed (connection held)
 var queriesSeen int64
 
@@ -90,6 +93,9 @@ func (*conn) CheckNamedValue(*driver.NamedValue) error {
 }
 func (*conn) QueryContext(ctx context.Context, q string, args []driver.NamedValue) (driver.Rows, error) {
 	atomic.AddInt64(&queriesSeen, 1)
+	if logSQL {
+		fmt.Fprintln(os.Stderr, "SQL:", q)
+	}
 	if strings.Contains(q, "type='update'") {
 		return &rowsT{rs: &ResultSet{Cols: 2, FailAfter: -1}}, nil
 	}
